@@ -1516,3 +1516,25 @@ Lemma lossy_query_refuted :
   cursor_read cu (u_query (mk_request (mkCfg KTags 2 0 []) link [])) = b "b" /\
   mk_request_prefix wit_parses (mkCfg KTags 0 0 []) link [] = link.
 Proof. vm_compute. repeat split. Qed.
+
+(* ---------- the digest probe of FetchReference (known finding over-read-digest-probe) ---------- *)
+
+(* it rejects exactly the bodies larger than the limit, never hands out a truncated body ... *)
+Lemma digest_probe_spec limit body :
+  (snd (digest_probe limit body) = true <-> (eff_limit limit < Z.of_nat (length body))%Z) /\
+  (snd (digest_probe limit body) = false -> fst (digest_probe limit body) = body) /\
+  (Z.of_nat (length (fst (digest_probe limit body))) <= eff_limit limit + 1)%Z.
+Proof.
+  pose proof (eff_limit_pos limit) as Hp. unfold digest_probe. cbn [fst snd].
+  set (n := Z.to_nat (eff_limit limit + 1)).
+  assert (L : length (firstn n body) = Nat.min n (length body)) by apply firstn_length.
+  split; [|split].
+  - rewrite Z.ltb_lt. unfold n in *. lia.
+  - intro H. apply Z.ltb_ge in H. apply firstn_all2. unfold n in *. lia.
+  - unfold n in *. lia.
+Qed.
+
+(* ... but of a larger body it reads one byte more than MaxMetadataBytes *)
+Lemma digest_probe_refuted :
+  exists limit body, (eff_limit limit < Z.of_nat (length (fst (digest_probe limit body))))%Z.
+Proof. exists 3%Z, (b "abcdef"). vm_compute. reflexivity. Qed.
